@@ -3264,6 +3264,8 @@ class _FindEval:
 
     # -- values
     def param_value(self, name: str):
+        if name == "self":
+            return ("self",)  # the element that is searched (not the candidate)
         if name == "identifier":
             return ("ident",)
         if name == "classes":
@@ -3287,7 +3289,7 @@ class _FindEval:
             return len(v[1]) > 0
         if k == "set0":
             return False
-        if k in ("set", "cand", "lambda", "ident", "attrsobj"):
+        if k in ("set", "cand", "lambda", "ident", "attrsobj", "self"):
             return True
         raise Unsupported(f"truthiness of {k}")
 
@@ -3475,6 +3477,11 @@ class _FindEval:
             v = self.ev(e.args[0], fr) if e.args else ("map", ())
             if v[0] == "map":
                 return v
+        if isinstance(f, ast.Attribute) and (_is_name(f.value, "self") and fr.fi.cls is not None and P.in_hier(fr.fi.cls) or P.hier_class_named(f.value, fr.fi) is not None):
+            # a helper of the element class called on the searching element or on the class (static / class method)
+            meth = P.c.lookup_method(P.element, f.attr)
+            if meth is not None and not meth.is_generator() and f.attr not in ("walk", "find"):
+                return self.inline(meth, e, fr, fr.env.get("self", ("self",)) if _is_name(f.value, "self") else ("self",))
         if isinstance(f, ast.Attribute):
             recv = self.ev(f.value, fr)
             m = f.attr
